@@ -175,8 +175,14 @@ def fresh_check(rep, segm, hist, known_f2b=True):
         rep.violation('dtype-changed', f'dtype changed from {hist["dtype_obj"]} to {data.dtype}', hist)
         return False
     ok = True
-    for name in ['labels', 'nlabels', 'max_label', 'slices', 'bbox', 'areas', 'background_area',
-                 'is_consecutive', 'missing_labels']:
+    # the attributes are read in a different order from check to check (`labels` derived from cached slices, `areas` before `labels` ...:
+    # seed C05-r12 was visible only when `slices` had been read before `labels`)
+    names_ = ['labels', 'nlabels', 'max_label', 'slices', 'bbox', 'areas', 'background_area', 'is_consecutive', 'missing_labels']
+    rot_ = hist.get('_order', 0) % 4
+    names_ = [names_, ['slices', 'labels', 'areas', 'bbox', 'nlabels', 'max_label', 'background_area', 'is_consecutive', 'missing_labels'],
+              ['bbox', 'areas', 'labels', 'slices', 'missing_labels', 'is_consecutive', 'max_label', 'nlabels', 'background_area'],
+              ['missing_labels', 'slices', 'max_label', 'labels', 'areas', 'bbox', 'nlabels', 'is_consecutive', 'background_area']][rot_]
+    for name in names_:
         try:
             a = getattr(segm, name)
             b = getattr(fresh, name)
@@ -294,7 +300,7 @@ def run(rep, tier):
         else:
             lines.append(f'segm.new {ny} {nx} {DTYPES[dt]} | ' + ' '.join(str(int(v)) for v in data.ravel()) + ' | ' + dm_tok)
         expect.append((h, -1, 'ok'))
-        hist = {'initial': kind, 'dtype': dt, 'dtype_obj': segm.data.dtype, 'data': data.tolist(), 'dmap': dmap, 'ops': []}
+        hist = {'initial': kind, 'dtype': dt, 'dtype_obj': segm.data.dtype, 'data': data.tolist(), 'dmap': dmap, 'ops': [], '_order': h}
         hists.append(hist)
         nops = r.randint(1, 12)
         mutated = False
